@@ -20,6 +20,7 @@ const smtHeader = `(declare-datatypes ((Slice 0)) (((mk_slice (s_arr Int) (s_off
 (assert (forall ((s Slice) (i Int)) (! (= (sl_idx s i) (+ (s_off s) i)) :pattern ((sl_idx s i)))))
 (define-fun fld_addr ((a Int) (i Int)) Int (+ (* a 1000000007) i))
 (declare-fun item_val_arr (Int) Int)
+(declare-fun err_is (Iface Iface) Bool)
 (declare-fun bit_and (Int Int) Int)
 (declare-fun bit_or (Int Int) Int)
 (declare-fun bit_xor (Int Int) Int)
